@@ -813,6 +813,105 @@ theorem strncat_spec (m : Mem) (s1 s2 : Nat) (a c : List Byte) (n fuel : Nat) (h
   exact ⟨holds_of_sameOutside (cstr_prefix_holds (r := []) (by simpa using ha)).1 ho (by omega), hh⟩
 
 
+/-! ### TOTALITY (round 3).  The theorems above are stated per case (found / absent, equal / first
+difference ...).  These say that the cases are exhaustive: on EVERY content of the mapped objects
+the call returns (no fault) and the result is characterised by an `iff`. -/
+
+/-- memcmp is TOTAL on two mapped n-byte objects (never a fault, whatever the contents), its result
+is 0 exactly when the two objects are equal, and otherwise it is the difference of the first
+differing pair read as `unsigned char` -/
+theorem memcmp_total (m : Mem) (d s : Nat) (l1 l2 : List Byte) (hlen : l1.length = l2.length)
+    (h1 : Holds m d l1) (h2 : Holds m s l2) :
+    ∃ r, memcmp m d s l1.length = some r ∧ (r = 0 ↔ l1 = l2) ∧
+      (l1 ≠ l2 → ∃ p x y r1 r2, l1 = p ++ x :: r1 ∧ l2 = p ++ y :: r2 ∧ x ≠ y ∧ r = ucInt x - ucInt y) := by
+  rcases first_diff l1 l2 hlen with e | ⟨p, x, y, r1, r2, e1, e2, hxy⟩
+  · subst e
+    exact ⟨0, memcmp_equal m d s l1 h1 h2, by simp, fun h => absurd rfl h⟩
+  · have g1 : Holds m d (p ++ [x]) := by
+      rw [e1, show p ++ x :: r1 = (p ++ [x]) ++ r1 by simp, holds_append] at h1; exact h1.1
+    have g2 : Holds m s (p ++ [y]) := by
+      rw [e2, show p ++ y :: r2 = (p ++ [y]) ++ r2 by simp, holds_append] at h2; exact h2.1
+    have hr := memcmp_first_difference m d s p x y l1.length g1 g2 hxy (by rw [e1]; simp)
+    have hne : l1 ≠ l2 := by
+      rw [e1, e2]; intro h
+      have := List.append_cancel_left h
+      exact hxy (List.cons.inj this).1
+    have hnz : ucInt x - ucInt y ≠ 0 := fun h0 => hxy ((ucInt_sub_sign x y).2.mp h0)
+    exact ⟨_, hr, ⟨fun h0 => absurd h0 hnz, fun h => absurd h hne⟩, fun _ => ⟨p, x, y, r1, r2, e1, e2, hxy, rfl⟩⟩
+
+/-- strcmp is TOTAL on two C strings: no fault, 0 exactly for equal strings, otherwise the difference
+of the first differing pair of characters (the terminator counts) as `unsigned char` -/
+theorem strcmp_total (m : Mem) (s1 s2 : Nat) (l1 l2 : List Byte) (fuel : Nat) (h1 : CStr m s1 l1) (h2 : CStr m s2 l2)
+    (hf : l1.length < fuel) :
+    ∃ r, strcmp m s1 s2 fuel = some r ∧ (r = 0 ↔ l1 = l2) := by
+  rcases first_diff_cstr l1 l2 h1.2 h2.2 with e | ⟨p, x, y, r1, r2, e1, e2, hxy, hp⟩
+  · subst e
+    exact ⟨0, strcmp_equal m s1 s2 l1 fuel h1 h2 hf, by simp⟩
+  · have g1 : Holds m s1 (p ++ [x]) := by
+      have := h1.1; rw [e1, show p ++ x :: r1 = (p ++ [x]) ++ r1 by simp, holds_append] at this; exact this.1
+    have g2 : Holds m s2 (p ++ [y]) := by
+      have := h2.1; rw [e2, show p ++ y :: r2 = (p ++ [y]) ++ r2 by simp, holds_append] at this; exact this.1
+    have hpl : p.length ≤ l1.length := by
+      have := congrArg List.length e1; simp at this; omega
+    have hr := strcmp_first_difference m s1 s2 p x y fuel g1 g2 hp hxy (by omega)
+    have hne : l1 ≠ l2 := by
+      intro h; subst h
+      rw [e1] at e2
+      exact hxy (List.cons.inj (List.append_cancel_left e2)).1
+    have hnz : ucInt x - ucInt y ≠ 0 := fun h0 => hxy ((ucInt_sub_sign x y).2.mp h0)
+    exact ⟨_, hr, fun h0 => absurd h0 hnz, fun h => absurd h hne⟩
+/-- memchr is TOTAL on a mapped n-byte object: NULL exactly when the byte does not occur, otherwise
+the pointer to its FIRST occurrence -/
+theorem memchr_total (m : Mem) (s : Nat) (c : Int) (l : List Byte) (hl : Holds m s l) :
+    ∃ r, memchr m s c l.length = some r ∧ (r = none ↔ toChar c ∉ l) ∧
+      (toChar c ∈ l → ∃ p rest, l = p ++ toChar c :: rest ∧ toChar c ∉ p ∧ r = some (s + p.length)) := by
+  by_cases hc : toChar c ∈ l
+  · obtain ⟨p, rest, e, hp⟩ := first_split hc
+    have hr : memchr m s c l.length = some (some (s + p.length)) := by
+      have := memchr_found m s c p rest (by rw [← e]; exact hl) hp
+      rwa [← e] at this
+    exact ⟨_, hr, ⟨fun h => by simp at h, fun h => absurd hc h⟩, fun _ => ⟨p, rest, e, hp, rfl⟩⟩
+  · exact ⟨none, memchr_absent m s c l hl hc, ⟨fun _ => hc, fun _ => rfl⟩, fun h => absurd h hc⟩
+
+/-- strnlen is TOTAL on a mapped array of maxlen bytes with ANY contents: the index of the first
+NUL, or maxlen when there is none -/
+theorem strnlen_total (m : Mem) (s : Nat) (l : List Byte) (h : Holds m s l) :
+    ∃ k, strnlen m s l.length = some k ∧ k ≤ l.length ∧ 0#8 ∉ l.take k ∧ (k < l.length → l[k]? = some 0#8) := by
+  by_cases h0 : 0#8 ∈ l
+  · obtain ⟨p, rest, e, hp⟩ := first_split h0
+    have hc : CStr m s p := by
+      refine ⟨?_, hp⟩
+      rw [e, show p ++ 0#8 :: rest = (p ++ [0#8]) ++ rest by simp, holds_append] at h; exact h.1
+    have hlen : l.length = p.length + 1 + rest.length := by rw [e]; simp; omega
+    refine ⟨p.length, ?_, by omega, ?_, fun _ => ?_⟩
+    · rw [strnlen_spec m s p l.length hc, Nat.min_eq_left (by omega)]
+    · rw [e]; simpa using hp
+    · rw [e]; simp
+  · exact ⟨l.length, strnlen_unterminated m s l h h0, Nat.le_refl _, by simpa using h0, fun hk => absurd hk (Nat.lt_irrefl _)⟩
+/-- strchr is TOTAL on a C string, for every `int` ch: the terminator when `(char)ch == 0`, the
+FIRST occurrence when the character occurs, NULL otherwise -/
+theorem strchr_total (m : Mem) (s : Nat) (ch : Int) (l : List Byte) (fuel : Nat) (h : CStr m s l)
+    (hf : l.length < fuel) :
+    ∃ r, strchr m s ch fuel = some r ∧
+      (toChar ch = 0#8 → r = some (s + l.length)) ∧
+      (toChar ch ≠ 0#8 → toChar ch ∉ l → r = none) ∧
+      (toChar ch ∈ l → ∃ p rest, l = p ++ toChar ch :: rest ∧ toChar ch ∉ p ∧ r = some (s + p.length)) := by
+  by_cases hz : toChar ch = 0#8
+  · refine ⟨_, strchr_terminator m s ch l fuel h hz hf, fun _ => rfl, fun h' => absurd hz h', fun hin => ?_⟩
+    exact absurd (hz ▸ hin) h.2
+  · by_cases hin : toChar ch ∈ l
+    · obtain ⟨p, rest, e, hp⟩ := first_split hin
+      have g : Holds m s (p ++ [toChar ch]) := by
+        have := h.1
+        rw [e, show p ++ toChar ch :: rest ++ [0#8] = (p ++ [toChar ch]) ++ (rest ++ [0#8]) by simp, holds_append] at this
+        exact this.1
+      have h0 : 0#8 ∉ p := fun e0 => h.2 (by rw [e]; exact List.mem_append_left _ e0)
+      have hlen : p.length < fuel := by
+        have := congrArg List.length e; simp at this; omega
+      exact ⟨_, strchr_found m s ch p fuel g h0 hp hlen, fun h' => absurd h' hz, fun _ hn => absurd hin hn,
+        fun _ => ⟨p, rest, e, hp, rfl⟩⟩
+    · exact ⟨_, strchr_absent m s ch l fuel h hin hz hf, fun h' => absurd h' hz, fun _ _ => rfl, fun h' => absurd h' hin⟩
+
 /-! ### strtok / strtok_r HISTORIES (round 3; audit item 4).  A sequence of calls on one
 string — the first with the string, the later ones with NULL, call i with its
 own delimiter string `ds[i]` (contents `Ds[i]`; the sets may change from call
